@@ -420,8 +420,8 @@ func runConc(wr *vt.Writer, rc *rec, r *rand.Rand) {
 		go func(k int) {
 			defer wg.Done()
 			rr := rand.New(rand.NewSource(seeds[k]))
-			for n := 0; n < 40 || !done.Load(); n++ {
-				if n >= 400 {
+			for n := 0; n < 20 || !done.Load(); n++ {
+				if n >= 100 {
 					break
 				}
 				pi := rr.Intn(len(pk))
